@@ -334,6 +334,46 @@ func init() {
 						c.Fail("", "collection area is not the sum over its top-dimensional members", map[string]interface{}{"got": got, "want": wantM})
 					}
 					c.Evals(2)
+					// centroid: the area-weighted mean of the polygons' centroids (each judged above), whatever lower-dimensional
+					// members the collection holds and wherever they stand among the members
+					{
+						sx, sy, sa := 0.0, 0.0, 0.0
+						for _, pg := range mp {
+							pc, pa := planar.CentroidArea(pg)
+							sx, sy, sa = sx+(pc[0]-bx)*pa, sy+(pc[1]-by)*pa, sa+pa
+						}
+						if sa > 0 {
+							want := orb.Point{bx + sx/sa, by + sy/sa}
+							members := []orb.Geometry{orb.Point{bx, by}, line, orb.MultiPoint{{1, 1}, {2, 2}}, orb.Collection{line}, orb.Collection{orb.Point{bx + 9, by - 4}, orb.Collection{line}}}
+							if r.Bool() {
+								members = append(members, cloneMP(mp))
+							} else {
+								for _, pg := range mp {
+									if r.Bool() {
+										members = append(members, clonePoly(pg))
+									} else {
+										members = append(members, orb.Collection{clonePoly(pg)})
+									}
+								}
+							}
+							var shuffled orb.Collection
+							for _, i := range r.Perm(len(members)) {
+								shuffled = append(shuffled, members[i])
+							}
+							_, sc := extentOf(models[0][0])
+							tolc := 1e-9 * (sc + sz)
+							for name, g := range map[string]orb.Geometry{"multi-polygon": mp, "collection (polygons after lower-dimensional members)": coll, "collection (members in random order)": shuffled} {
+								gc, ga := planar.CentroidArea(g)
+								c.Eval()
+								if !relClose(ga, wantM, 1e-12, 0) {
+									c.Fail("", "area of a "+name+" is not the sum over its top-dimensional members", map[string]interface{}{"value": sv(g), "got": ga, "want": wantM})
+								}
+								if !(math.Abs(gc[0]-want[0]) <= tolc && math.Abs(gc[1]-want[1]) <= tolc) {
+									c.Fail("", "centroid of a "+name+" is not the area-weighted mean of its polygons' centroids", map[string]interface{}{"value": sv(g), "got": sv(gc), "want": sv(want), "tol": tolc})
+								}
+							}
+						}
+					}
 					// distance-from for polygons / multi-polygons / collections with the index
 					for i := 0; i < 12; i++ {
 						rings := models[r.Intn(len(models))]
